@@ -16,8 +16,8 @@ Driver (relational):
                      relion2stopgap read them back
   import_indep       files / frames produced by the independent RELION writer (origins in px for 3.0, Angstrom >= 3.1,
                      optional data_optics) against the generator's own truth (version, pixel size)
-  import_halfset_single   rlnRandomSubset present with ONE distinct value: parity of subtomo_id = half-set
-                     (mechanism key halfset-single-valued)
+  import_halfset_single   counts the import_df evaluations whose rlnRandomSubset column holds ONE distinct value (N = 1,
+                     one-half files) and repeats their parity verdict; the clause itself is part of import_df / import_indep
 """
 import os
 
@@ -49,7 +49,6 @@ CLASSES = ["random", "gimbal", "near_gimbal", "wide_angles", "lattice", "signed_
            "em_file_input", "sg_star_input"]
 VERSIONS = [3.0, 3.1, 4.0]
 NUMERIC = set(O.COORD + O.ANGLES + O.ORIGIN_PX + O.ORIGIN_A + ["rlnClassNumber", "rlnRandomSubset", "rlnPixelSize"])
-HALF_KEY = "halfset-single-valued"
 
 
 def plan(tier):
@@ -206,9 +205,9 @@ def _import_snapshot(A):
 def judge_import(ctx, monitor, df, rel, version, ps, tol_pos=O.TOL_POS_MEM, tol_rot=O.TOL_ROT_MEM, extra=None, single=False):
     w, info = O.check_import(df, rel, version, ps, tol_pos, tol_rot)
     ctx.check(monitor, w is None, dict(w or {}, version=version, **(extra or {})))
-    if single and info is not None and w is None:
+    if single and info is not None and (w is None or not info["ok"]):      # single-valued half-set column reached the parity clause
         ctx.check("import_halfset_single", info["ok"], dict(info["witness"] or {}, version=version, all_rows_rlnRandomSubset=info["single"],
-                                                           particles=len(df), at=monitor, **(extra or {})), key=HALF_KEY)
+                                                           particles=len(df), at=monitor, **(extra or {})))
 
 
 def _import_post(ctx, A, old, result):
